@@ -14,18 +14,20 @@ HEADER = "# CMAP File Version:\t0.1\n# Label Channels:\t1\n#h CMapId\tContigLeng
 
 
 # ------------------------------------------------------------------------------------------------ generation
-def write_cmap(path, maps, shuffle_rows=None):
-    """maps: list of (id, length, [positions])"""
+def write_cmap(path, maps, shuffle_rows=None, two_colour=None):
+    """maps: list of (id, length, [positions]); two_colour: a Random that puts each label on channel 1 or 2 (a two-colour CMAP: labels of both
+    channels are labels)"""
     rows = []
     for mid, length, pos in maps:
         n = len(pos)
         for i, p in enumerate(pos):
-            rows.append(f"{mid}\t{length:.1f}\t{n}\t{i + 1}\t1\t{p:.1f}\t0.0\t1.0\t1.0\n")
+            ch = two_colour.choice((1, 1, 2)) if two_colour is not None else 1
+            rows.append(f"{mid}\t{length:.1f}\t{n}\t{i + 1}\t{ch}\t{p:.1f}\t0.0\t1.0\t1.0\n")
         rows.append(f"{mid}\t{length:.1f}\t{n}\t{n + 1}\t0\t{length:.1f}\t0.0\t1.0\t1.0\n")
     if shuffle_rows is not None:
         shuffle_rows.shuffle(rows)
     with open(path, 'w') as f:
-        f.write(HEADER + ''.join(rows))
+        f.write((HEADER.replace("Label Channels:\t1", "Label Channels:\t2") if two_colour is not None else HEADER) + ''.join(rows))
 
 
 def gen_reference(rnd, n_labels, repetitive=False):
@@ -263,10 +265,10 @@ def run_program(workdir, mode, extra=(), capture=True, cpus=None, style=0):
     return res
 
 
-def make_workdir(refs, queries, shuffle=None):
+def make_workdir(refs, queries, shuffle=None, two_colour=None):
     d = tempfile.mkdtemp(prefix='coma_bc_')
-    write_cmap(os.path.join(d, 'r.cmap'), refs, shuffle)
-    write_cmap(os.path.join(d, 'q.cmap'), queries, shuffle)
+    write_cmap(os.path.join(d, 'r.cmap'), refs, shuffle, two_colour)
+    write_cmap(os.path.join(d, 'q.cmap'), queries, shuffle, two_colour)
     return d
 
 
